@@ -44,6 +44,14 @@ func init() {
 			"Not decided: equality of the mounted tree with the bundle for concrete trees, the byte contents returned by the cafs reader (C01/C03 clauses), kernel caching behaviour.",
 		run: runC17,
 	})
+	addWitness(witness{Prop: "C17", Name: "cafs-reader-before-descriptor", File: "pkg/fuse/fs.go",
+		Old:    "\tfs.l = fs.l.With(zap.String(\"repo\", bundle.RepoID), zap.String(\"bundle\", bundle.BundleID))\n",
+		New:    "\tfs.l = fs.l.With(zap.String(\"repo\", bundle.RepoID), zap.String(\"bundle\", bundle.BundleID))\n\tif fs.streamed {\n\t\tearly, err := cafs.New(cafs.LeafSize(bundle.BundleDescriptor.LeafSize), cafs.Backend(bundle.BlobStore()))\n\t\tif err != nil {\n\t\t\treturn nil, err\n\t\t}\n\t\tfs.cafs = early\n\t}\n",
+		Expect: "mount.leaf-size-after-descriptor"})
+	addWitness(witness{Prop: "C07", Name: "merge-stage-drops-page-error", File: "pkg/core/keys.go",
+		Old:    "\t\terr := batch.err // a failed key page is forwarded, not dropped: the listing must not look complete\n\t\tfiltered :=",
+		New:    "\t\tvar err error\n\t\tfiltered :=",
+		Expect: "stages-forward-errors"})
 	addWitness(witness{Prop: "C17", Name: "readdir-skips-entry-that-does-not-fit", File: "pkg/fuse/fs_ro_ops.go",
 		Old:    "\t\tn := fuseutil.WriteDirent(op.Dst[op.BytesRead:], children[i])\n\t\tif n == 0 {\n\t\t\tbreak\n\t\t}",
 		New:    "\t\tn := fuseutil.WriteDirent(op.Dst[op.BytesRead:], children[i])\n\t\tif n == 0 {\n\t\t\tcontinue\n\t\t}",
@@ -223,6 +231,8 @@ func runC17(c *Ctx) {
 	checkGenericErrorDiscipline(c, "pkg/fuse")
 	checkReadAtOffsetWithinLeaf(c, "plumbing.read.offset-within-leaf")
 	checkMountDataSource(c, "mount.data-source")
+	checkReadAtExits(c, "plumbing.readat-exits")
+	checkMountLeafSizeAfterDescriptor(c, "mount.leaf-size-after-descriptor")
 }
 
 // guardedUpdateFails: `if _, update := X.Insert(k, v); update { return <non-nil error> }`
